@@ -3,7 +3,8 @@
   Props/C19Ieee.lean (the IEEE / real-analysis instantiations), Props/C19IeeePos.lean, Props/C19IeeeBound.lean and
   Props/C19IeeeErr.lean (rounding-error bounds of the positions and of the booked lengths) and Props/C19IeeeSearch.lean
   (what `idx_of_dist` establishes on IEEE doubles, composed with the interpolation bound) and Props/C19IeeeFinite.lean (the
-  no-overflow conditions of the interpolation, derived; `segFinite_statement` refuted as recorded). All in namespace Rosu.C19.
+  no-overflow conditions of the interpolation, derived; `segFinite_statement` refuted as recorded) and
+  Props/C19DecodedLinear.lean (end to end for linear sliders: the hypotheses derived for the curve `Curve::new` computes). All in namespace Rosu.C19.
 -/
 import RosuModel.Props.C19Curve
 import RosuModel.Props.C19Ieee
@@ -12,3 +13,4 @@ import RosuModel.Props.C19IeeeBound
 import RosuModel.Props.C19IeeeErr
 import RosuModel.Props.C19IeeeSearch
 import RosuModel.Props.C19IeeeFinite
+import RosuModel.Props.C19DecodedLinear
